@@ -72,7 +72,7 @@ def check_probe(spec: dict) -> core.CaseResult:
     nt = backend != 'serial' and len(filt) >= 2
     seen = set()
     findings = [x for x in findings if not (x.signature in seen or seen.add(x.signature))]
-    return dagprop.result(obs, findings, nt, [f'backend={backend}', f'max_workers={spec["lab"]["max_workers"]}', f'filters={min(len(filt), 3)}',
+    return dagprop.result(obs, findings, nt, [f'backend={backend}', f'max_workers={spec["lab"]["max_workers"]}', f'filters={min(len(filt), 3)}', f'bust_over_cached={bool(spec["lab"].get("bust_cache"))}',
                                                     f'lab_context={"empty" if not (spec["lab"].get("context") or not spec["lab"].get("no_nonce")) else "non-empty"}'], prop='C16')
 
 
@@ -134,7 +134,7 @@ CTX_VALUES = st.one_of(st.integers(0, 5), st.sampled_from(['ctxvalue-aaaaaaaa', 
 
 
 def probe_spec(backend: str):
-    def fix(sp, ctx, late=False, bare=0):
+    def fix(sp, ctx, late=False, bare=0, bust_over_cached=False):
         sp['lab']['late_context'] = late
         if bare >= 2:
             # exactly the generated context (the harness adds nothing); in half of these cases it is empty / None
@@ -146,13 +146,16 @@ def probe_spec(backend: str):
             n['mode'] = 'probe'
         sp['requested'] = [{'ref': n['id'], 'fresh': False} for n in sp['nodes']]
         sp['lab']['context'] = ctx
-        sp['pre_cached'] = []
-        sp['lab']['bust_cache'] = False
+        # a forced re-execution over existing entries (bust_cache=True with every cacheable task already stored): run() executes again,
+        # so it must get the same context and process environment as in a first run
+        sp['pre_cached'] = [n['id'] for n in sp['nodes']] if bust_over_cached else []
+        sp['lab']['bust_cache'] = bool(bust_over_cached)
         return sp
     base = specs.dag_spec(min_nodes=1, max_nodes=4 if backend == 'spawn' else 7, backends=(backend,), types=['NN', 'N2', 'CtxSub', 'CtxSub2', 'Z', 'CtxWrap', 'CtxSubMix', 'CtxSubKid'],
                           pre_cache=False, bust=False, allow_fresh_same_parent=True, wide=(backend != 'serial'),
                           max_workers=(1, 1, 2) if backend == 'spawn' else (1, 2, 3, None))
-    return st.builds(fix, base, st.dictionaries(st.sampled_from(['a', 'b', 'c', 'zz', 'other']), CTX_VALUES, max_size=4), st.booleans(), st.integers(0, 4))
+    return st.builds(fix, base, st.dictionaries(st.sampled_from(['a', 'b', 'c', 'zz', 'other']), CTX_VALUES, max_size=4), st.booleans(), st.integers(0, 4),
+                     st.sampled_from([True, False, False]))
 
 
 def scale_spec(backend: str):
